@@ -11,6 +11,7 @@
    row count) -> rejection = VIOLATION; equality with the modelled slices / overlap detection is tracked as drift only.
 """
 import itertools
+import random
 
 from .. import st_common as S
 
@@ -68,6 +69,19 @@ def window_cases(ctx, n):
         if ctx.rng.random() < 0.2:
             parts.insert(ctx.rng.randrange(0, len(parts) + 1), [])       # an empty part anywhere
         out.append({"parts": parts, "extra": [ctx.rng.choice([0, 1, 3]) for _ in parts]})
+    return out
+
+
+def disjoint_cases(ctx):
+    """long neighbouring parts over disjoint alphabets (nothing to stitch): lengths around the values where n * (1.0 / n) is not
+    exactly 1.0 in floating point (49, 98, 103, 107, 161 ...), plus ordinary lengths"""
+    rng = random.Random(ctx.seed * 7919 + 15)
+    out = []
+    for la, lb in [(49, 49), (50, 49), (98, 60), (103, 103), (30, 107), (12, 20)] + ([(161, 161), (196, 110)] if ctx.tier == "thorough" else []):
+        a = [rng.choice([1, 2]) for _ in range(la)]
+        b = [rng.choice([3, 4]) for _ in range(lb)]
+        out.append({"parts": [a, b], "extra": [0, 1]})
+        out.append({"parts": [b, a, [5] * 7], "extra": [1, 0, 0]})
     return out
 
 
@@ -163,6 +177,9 @@ def run(ctx):
             selftest = True
     ctx.tlc("Stitch", constants=constants({"alphabet": 2, "maxlen": 2, "parts": 2, "extras": [0]}, legacy=True), invariants=[],
             properties=PROPS, workers=2, expect_violation="MergeOK", label="Stitch Legacy=TRUE (self-test)")
+    dj = disjoint_cases(ctx)
+    judge(ctx, dj, S.run_cases(dj), {"Alphabet": {1, 2, 3, 4, 5}, "MaxLen": 9, "MaxParts": 9, "Extras": {0, 1}, "Legacy": False},
+          "long parts over disjoint alphabets")
     wins = window_cases(ctx, 400 if ctx.tier == "quick" else 4000)
     traces = S.run_cases(wins)
     good = judge(ctx, wins, traces, {"Alphabet": {1, 2, 3, 4}, "MaxLen": 9, "MaxParts": 9, "Extras": {0, 1, 3}, "Legacy": False},
